@@ -558,15 +558,73 @@ func codecs(seed uint64, pairs int, cnt map[string]int64) []string {
 			msgs = append(msgs, fmt.Sprintf("AppendBinary round trip of (%d,%d) gives %v (len %d, err %v)", id, gen, e4, len(app), err))
 		}
 	}
+	// encodings are the caller's: kept ones are not changed by later encodings (of other entities), and scribbling over
+	// one does not change what is encoded later
+	type kept struct {
+		e        ecs.Entity
+		bin, app []byte
+		js       []byte
+	}
+	var keep []kept
+	flush := func() {
+		for pass := 0; pass < 2; pass++ {
+			for i := range keep {
+				k := &keep[i]
+				cnt["kept-encodings-decoded"]++
+				var a, b, c ecs.Entity
+				if err := a.UnmarshalBinary(k.bin); err != nil || a != k.e {
+					msgs = append(msgs, fmt.Sprintf("MarshalBinary of %v, kept while %d other entities were encoded, decodes to %v (err %v)", k.e, len(keep)-1, a, err))
+				}
+				if err := b.UnmarshalBinary(k.app[len(k.app)-8:]); err != nil || b != k.e || k.app[0] != 7 {
+					msgs = append(msgs, fmt.Sprintf("AppendBinary of %v, kept while other entities were encoded, decodes to %v (err %v, prefix %d)", k.e, b, err, k.app[0]))
+				}
+				if err := c.UnmarshalJSON(k.js); err != nil || c != k.e {
+					msgs = append(msgs, fmt.Sprintf("MarshalJSON of %v, kept while other entities were encoded, decodes to %v (err %v)", k.e, c, err))
+				}
+				if pass == 0 && i%2 == 0 {
+					// scribble over the returned slices (including spare capacity), then encode the entity again
+					for _, sl := range [][]byte{k.bin[:cap(k.bin)], k.app[:cap(k.app)], k.js[:cap(k.js)]} {
+						for j := range sl {
+							sl[j] = 0xEE
+						}
+					}
+					k.bin, _ = k.e.MarshalBinary()
+					k.app, _ = k.e.AppendBinary(make([]byte, 1, 1+i%12))
+					k.app[0] = 7
+					k.js, _ = k.e.MarshalJSON()
+				}
+			}
+		}
+		keep = keep[:0]
+	}
+	checkKept := func(id, gen uint32) {
+		e, err := mkEntity(id, gen)
+		if err != nil || len(msgs) > 20 {
+			return
+		}
+		k := kept{e: e}
+		k.bin, _ = e.MarshalBinary()
+		k.app, _ = e.AppendBinary(make([]byte, 1, 1+len(keep)%12)) // buffers with and without spare capacity
+		k.app[0] = 7
+		k.js, _ = e.MarshalJSON()
+		keep = append(keep, k)
+		if len(keep) == 16 {
+			flush()
+		}
+	}
 	for _, a := range bound {
 		for _, b := range bound {
 			check(a, b)
+			checkKept(a, b)
 		}
 	}
 	r := eng.NewRng(seed ^ 0xC17)
 	for i := 0; i < pairs; i++ {
-		check(uint32(r.U64()), uint32(r.U64()))
+		a, b := uint32(r.U64()), uint32(r.U64())
+		check(a, b)
+		checkKept(a, b)
 	}
+	flush()
 	// malformed binary input: every length 0..64 except 8 must be rejected
 	for n := 0; n <= 64; n++ {
 		if n == 8 {
